@@ -463,21 +463,47 @@ pub fn type_name_of(t: u8) -> &'static str {
     }
 }
 
+fn extractor_of(r: &Rule) -> Box<dyn mahf::logging::extractor::EntryExtractor<EP>> {
+    if r.t == TAG_IT {
+        match r.kind {
+            ExtractorKind::ValueOf => ValueOf::<Iterations>::entry(),
+            ExtractorKind::IdLens => IdLens::<Iterations>::entry(),
+        }
+    } else {
+        with_ty!(r.t, T => match r.kind {
+            ExtractorKind::ValueOf => ValueOf::<T>::entry(),
+            ExtractorKind::IdLens => IdLens::<T>::entry(),
+        })
+    }
+}
+
+/// Builds the real `LogConfig`, going through every way of adding rules: consecutive rules with
+/// the same trigger are added with `with_many` (which clones the trigger per extractor), whole-state
+/// extractors with `with_auto`, the rest with `with`.
 pub fn build_log_config(rules: &[Rule], sh: &Arc<Shared>) -> LogConfig<EP> {
     let mut cfg = LogConfig::<EP>::new();
-    for r in rules {
-        let trig = build_cond(&r.trigger, sh);
-        if r.t == TAG_IT {
-            match r.kind {
-                ExtractorKind::ValueOf => cfg.with(trig, ValueOf::<Iterations>::entry()),
-                ExtractorKind::IdLens => cfg.with(trig, IdLens::<Iterations>::entry()),
-            };
-        } else {
-            with_ty!(r.t, T => match r.kind {
-                ExtractorKind::ValueOf => { cfg.with(trig, ValueOf::<T>::entry()); }
-                ExtractorKind::IdLens => { cfg.with(trig, IdLens::<T>::entry()); }
-            });
+    let mut i = 0;
+    while i < rules.len() {
+        let mut j = i + 1;
+        while j < rules.len() && rules[j].trigger == rules[i].trigger {
+            j += 1;
         }
+        if j - i >= 2 {
+            cfg.with_many(build_cond(&rules[i].trigger, sh), rules[i..j].iter().map(extractor_of).collect::<Vec<_>>());
+        } else {
+            let r = &rules[i];
+            let trig = build_cond(&r.trigger, sh);
+            if r.kind == ExtractorKind::IdLens {
+                if r.t == TAG_IT {
+                    cfg.with_auto::<Iterations>(trig);
+                } else {
+                    with_ty!(r.t, T => { cfg.with_auto::<T>(trig); });
+                }
+            } else {
+                cfg.with(trig, extractor_of(r));
+            }
+        }
+        i = j;
     }
     cfg
 }
